@@ -19,3 +19,11 @@ func limitAddressSpace(bytes uint64) {
 	lim := syscall.Rlimit{Cur: bytes, Max: bytes}
 	_ = syscall.Setrlimit(syscall.RLIMIT_AS, &lim)
 }
+
+// limitOpenFiles lowers the descriptor limit of a worker (and of the sub-processes it starts): a
+// component that leaks a descriptor per skipped entry then runs dry within one long directory instead of
+// after a thousand entries.
+func limitOpenFiles(n uint64) {
+	lim := syscall.Rlimit{Cur: n, Max: n}
+	_ = syscall.Setrlimit(syscall.RLIMIT_NOFILE, &lim)
+}
